@@ -18,6 +18,7 @@ type Profile struct {
 	Conc         []int
 	EarlyPct     int
 	SharedCtx    bool // several requests may share one context
+	SharedSpan   int  // percent of new contexts that carry the request span of an earlier context
 	MaxReqs      int
 	Concurrent   bool // consume steps may issue several requests at once
 }
@@ -133,10 +134,15 @@ func GenScenario(t *rapid.T, p Profile) *Scenario {
 		if p.SharedCtx && i > 0 && rapid.IntRange(0, 3).Draw(t, "sharectx") == 0 {
 			prev := sc.Reqs[rapid.IntRange(0, i-1).Draw(t, "sharewith")]
 			r.Ctx = prev.Ctx
+			r.SpanOf = prev.SpanOf
 			r.Meta = prev.Meta
 			r.DeadlineMs = prev.DeadlineMs
 		} else {
 			r.Ctx = nextCtx
+			r.SpanOf = nextCtx
+			if p.SharedSpan > 0 && nextCtx > 0 && pct(t, "sharespan", p.SharedSpan) {
+				r.SpanOf = sc.Reqs[rapid.IntRange(0, i-1).Draw(t, "spanof")].SpanOf
+			}
 			nextCtx++
 			if meta {
 				r.Meta = genMeta(t, i)
